@@ -18,6 +18,16 @@ def install(reg):
     # ------------------------------------------------------------------ builtins
     def b_len(p, args, kw):
         (x,) = args
+        if isinstance(x, VBox) and p.pure:
+            t = x.t
+            det = [z3.simplify(f(t)) for f in (PV.is_PBytes, PV.is_PStr, PV.is_PList, PV.is_PTuple, PV.is_PDict)]
+            if not any(z3.is_true(d) for d in det):
+                # specification context, type undetermined: len(x) by constructor (0 for values without a length)
+                return VInt(z3.If(PV.is_PBytes(t), z3.Length(PV.yval(t)),
+                            z3.If(PV.is_PStr(t), z3.Length(PV.sval(t)),
+                            z3.If(PV.is_PList(t), z3.Length(PV.items(t)),
+                            z3.If(PV.is_PTuple(t), z3.Length(PV.titems(t)),
+                            z3.If(PV.is_PDict(t), z3.Length(PV.dkeys(t)), z3.IntVal(0)))))))
         if isinstance(x, VBox):
             x = p.unbox(x)
         if isinstance(x, (VStr, VBytes)):
